@@ -125,6 +125,8 @@ impl Dgp {
 }
 
 pub const FILL: u8 = 0xa5;
+/// local port of the second UDP socket in the "twosock" part
+pub const SPORT2: u16 = 1235;
 
 /// (802.15.4 MAC header, compressed IPv6(+UDP) header, uncompressed header, body octets that are
 /// not payload) the sender is expected to produce. Used ONLY for stimulus selection (boundary
@@ -232,6 +234,13 @@ impl Scn {
         for &l in &self.lens {
             v.push(self.main_dg(l));
         }
+        // "twosock": `first` describes the datagram of the LATER socket of the same egress pass
+        // (stim_kind == 1: sent as an echo request through the ICMP socket instead, judged apart)
+        if self.part == "twosock" && self.stim_kind != 1 {
+            if let Some(f) = &self.first {
+                v.push(f.clone());
+            }
+        }
         v
     }
     pub fn dg_src(&self, d: &Dgp) -> Ipv6Address {
@@ -324,7 +333,8 @@ impl Scn {
                 g
             },
             fill: self.fill,
-            stimulus_sockets: self.part == "ingress",
+            stimulus_sockets: self.part == "ingress" || self.part == "twosock",
+            two_sockets: self.part == "twosock",
             proto: self.proto(),
             tcp_buf: 4096,
         }
@@ -488,7 +498,7 @@ pub fn label_of(scn: &Scn, interrupted: bool) -> String {
         // (how the fragments were kept pending -- one frame per poll, device blocked, or simply
         // more fragments than one poll sends -- is a precondition, not the cause: not in the label)
     }
-    if scn.part == "seq" {
+    if scn.part == "seq" || scn.part == "twosock" {
         if let (Some(f), Some(&l)) = (&scn.first, scn.lens.first()) {
             p.push(size_class(scn.s_hw, scn.r_hw, &scn.main_dg(l)).into());
             let mut q: Vec<String> = vec![];
@@ -501,7 +511,8 @@ pub fn label_of(scn: &Scn, interrupted: bool) -> String {
             if f.hl != 64 {
                 q.push(format!("hl={}", f.hl));
             }
-            if (f.sport, f.dport) != (1234, 1234) {
+            let base2 = if scn.part == "twosock" { (SPORT2, 1234) } else { (1234, 1234) };
+            if (f.sport, f.dport) != base2 && !(scn.part == "twosock" && scn.stim_kind == 1) {
                 if canonical_ports(f.sport, f.dport) == (f.sport, f.dport) {
                     q.push(format!("nhc-ports {}", nhc_port_mode(f.sport, f.dport)));
                 } else {
@@ -509,7 +520,12 @@ pub fn label_of(scn: &Scn, interrupted: bool) -> String {
                 }
             }
             q.push(size_class(scn.s_hw, scn.r_hw, f).into());
-            p.push(format!("after-a-datagram[{}]", q.join(",")));
+            if scn.part == "twosock" {
+                q.insert(0, if scn.stim_kind == 1 { "icmp-socket:echo-request".into() } else { "second-udp-socket".to_string() });
+                p.push(format!("with-a-later-socket-queued-before-the-same-poll[{}]", q.join(",")));
+            } else {
+                p.push(format!("after-a-datagram[{}]", q.join(",")));
+            }
         }
     }
     if p.is_empty() {
@@ -659,6 +675,8 @@ pub struct Out {
     pub back_frames: Vec<Vec<u8>>,
     pub quiescent: bool,
     pub too_long: Vec<(char, Vec<u8>)>,
+    /// what R's ICMP socket saw ("twosock" part with an ICMP second socket)
+    pub icmp_r: Vec<IcmpObs>,
 }
 
 /// neighbor caches are filled by the REAL NS/NA exchange, triggered by tiny datagrams between
@@ -728,6 +746,36 @@ pub fn udp_exchange(w: &mut World, scn: &Scn) -> Out {
             quiescent &= w.settle(80 + d.len / 30);
             udp.extend(World::udp_drain(&mut w.r, h));
         }
+    } else if scn.part == "twosock" {
+        // socket 1 (first in the SocketSet) and a later socket each queue one datagram before
+        // the same poll
+        let d = &dgs[0];
+        accepted.push(w.udp_send(scn.dg_src(d), scn.dg_dst(d), d.dport, &pattern(d.len, 0)));
+        if let Some(f) = &scn.first {
+            if scn.stim_kind == 1 {
+                let h2 = w.s.icmp.unwrap();
+                let s = w.s.sockets.get_mut::<icmp::Socket>(h2);
+                s.set_hop_limit(Some(f.hl));
+                let _ = s.send_slice(&echo_request(f.len, 11), IpAddress::Ipv6(scn.dg_dst(f)));
+            } else {
+                let h2 = w.s.udp2.unwrap();
+                let s = w.s.sockets.get_mut::<smoltcp::socket::udp::Socket>(h2);
+                s.close();
+                s.bind(f.sport).unwrap();
+                s.set_hop_limit(Some(f.hl));
+                let mut meta = smoltcp::socket::udp::UdpMetadata::from(IpEndpoint::new(IpAddress::Ipv6(scn.dg_dst(f)), f.dport));
+                meta.local_address = Some(IpAddress::Ipv6(scn.dg_src(f)));
+                accepted.push(s.send_slice(&pattern(f.len, 1), meta).is_ok());
+            }
+        }
+        if scn.one_per_poll {
+            w.s.per_poll = Some(1);
+        }
+        let total: usize = dgs.iter().map(|d| d.len).sum::<usize>() + scn.first.as_ref().map(|f| f.len).unwrap_or(0);
+        quiescent = w.settle(120 + total / 10);
+        w.s.per_poll = None;
+        w.s.dev.budget = None;
+        udp.extend(World::udp_drain(&mut w.r, h));
     } else {
         for (i, d) in dgs.iter().enumerate() {
             accepted.push(w.udp_send(scn.dg_src(d), scn.dg_dst(d), d.dport, &pattern(d.len, i)));
@@ -744,6 +792,7 @@ pub fn udp_exchange(w: &mut World, scn: &Scn) -> Out {
         back_frames: std::mem::take(&mut w.r2s),
         quiescent,
         too_long: std::mem::take(&mut w.too_long),
+        icmp_r: World::icmp_drain(&mut w.r),
     }
 }
 
@@ -1209,9 +1258,76 @@ pub fn hwchg_exchange(w: &mut World, scn: &Scn) -> (Out, bool) {
             back_frames: std::mem::take(&mut w.r2s),
             quiescent,
             too_long: std::mem::take(&mut w.too_long),
+            icmp_r: vec![],
         },
         pending,
     )
+}
+
+/// "twosock" part: two sockets of the sending interface each queue one datagram before the same
+/// poll; both must be reproduced at the receiver (in any order)
+pub fn run_twosock(scn: &Scn, acc: &mut Acc) {
+    acc.scenarios += 1;
+    *acc.per_part.entry(scn.part.clone()).or_insert(0) += 1;
+    let r = catch_unwind(AssertUnwindSafe(|| {
+        let (mut wl, mut wi) = world_pair(scn, acc);
+        let lo = udp_exchange(&mut wl, scn);
+        let io = udp_exchange(&mut wi, scn);
+        acc.polls += wl.polls + wi.polls;
+        (lo, io)
+    }));
+    match r {
+        Ok((lo, io)) => {
+            let v = eval_udp(scn, &lo, Some(&io), None, acc);
+            acc.frames += (lo.frames.len() + lo.back_frames.len()) as u64;
+            let mut echo_ok = true;
+            if let (1, Some(f)) = (scn.stim_kind, &scn.first) {
+                // the ICMP socket's echo request: exactly once at R's ICMP socket, if in bounds
+                let want = {
+                    let mut m = echo_request(f.len, 11);
+                    m[2] = 0;
+                    m[3] = 0;
+                    m
+                };
+                let body = |m: &[u8]| {
+                    let mut v = m.to_vec();
+                    if v.len() >= 4 {
+                        v[2] = 0;
+                        v[3] = 0;
+                    }
+                    v
+                };
+                let n_lo = lo.icmp_r.iter().filter(|o| body(&o.msg) == want).count();
+                let n_ip = io.icmp_r.iter().filter(|o| body(&o.msg) == want).count();
+                let cz = cause(scn, 0);
+                let ctx = format!(
+                    "echo request of {} data octets queued on the sender's ICMP socket before the same poll as a UDP datagram of {} octets: seen {} times by the receiver's ICMP socket (Medium::Ip: {}) | scenario {} | frames S->R:{}",
+                    f.len,
+                    scn.lens[0],
+                    n_lo,
+                    n_ip,
+                    scn.to_json(),
+                    frames_text(&lo.frames, true)
+                );
+                if lo.icmp_r.iter().any(|o| body(&o.msg) != want) {
+                    acc.viol(format!("C20/corrupted/icmp/{}", cz), ctx.clone(), scn);
+                }
+                if n_lo > 1 {
+                    acc.viol(format!("C20/duplicated/icmp/{}", cz), ctx.clone(), scn);
+                }
+                if n_lo == 0 && n_ip == 1 && delivery_demanded(36, 40, 8 + f.len) {
+                    acc.viol(format!("C20/lost/icmp-request/{}", cz), ctx, scn);
+                    echo_ok = false;
+                }
+            }
+            acc.outcome(format!(
+                "twosock second={} {}",
+                if scn.stim_kind == 1 { "icmp" } else { "udp" },
+                if v.all_delivered && echo_ok { "all-delivered" } else { "not-all-delivered" }
+            ));
+        }
+        Err(e) => panic_viol(scn, e, acc, "6LoWPAN world (two sockets)"),
+    }
 }
 
 pub const CLOSED_PORT: u16 = 7777;
@@ -1294,6 +1410,7 @@ pub fn ingress_exchange(w: &mut World, scn: &Scn, third: &[Vec<u8>]) -> (Out, bo
             back_frames: std::mem::take(&mut w.r2s),
             quiescent,
             too_long: std::mem::take(&mut w.too_long),
+            icmp_r: vec![],
         },
         pending,
     )
